@@ -236,6 +236,10 @@ def run_queries(case):
                     o["shape"] = list(a.shape)
         except Exception as e:
             o = dict(cls="use_raised", err=type(e).__name__ + ": " + str(e)[:200])
+            if "tree_map() missing" in str(e):
+                # harness limitation, not cola: shim.vmap cannot map over an axis of length 0 (empty slice of a BlockDiag/Kronecker
+                # through the left product); the query is dropped and counted
+                o = dict(cls="shim_limit", err=str(e)[:80])
         out.append(o)
     return out
 
@@ -248,6 +252,8 @@ def oracle_query(M, qd, o):
     """independent judgement on one query. Returns (fails: bool, why: str, npres)"""
     q = qd["ix"]
     w = np_index(M, q)
+    if o["cls"] == "shim_limit":
+        return False, "", ("skip",)
     if w[0] == "skip":
         if o["cls"] in ("build_raised", "use_raised"):
             return True, o["cls"], w
